@@ -145,8 +145,12 @@ pub fn loss(trace: &[Value]) -> Vec<Value> {
                 }
             }
         }
-        // the connection left the handshake or changed path: the timer formula's inputs moved
-        v.push(json!({"ev":"Step","kind":ev,"t":cap(&e["t"]),"sure":sure,"acks":acks,"lost":lost,"rem":rem,"disc":disc,"retry":is_retry,
+        // spaces in which this step put a new ack-eliciting packet into the table
+        let sentae: Vec<bool> = (0..3).map(|s| {
+            let before: BTreeSet<i64> = table(pre, s).iter().map(|x| x.0).collect();
+            table(post, s).iter().any(|x| x.2 && !before.contains(&x.0))
+        }).collect();
+        v.push(json!({"ev":"Step","kind":ev,"t":cap(&e["t"]),"sure":sure,"acks":acks,"lost":lost,"rem":rem,"disc":disc,"retry":is_retry,"sentae":sentae,
             "pre":state(pre),"post":state(post),"mad":cap(&post["pto"][2]) - cap(&post["path"]["ptob"])}));
     }
     let mut out = Vec::new();
